@@ -20,6 +20,7 @@ from vf.oracle import scopes as S
 BUILTIN_NAMES = set(dir(builtins))
 BUILTIN_EXCEPTIONS = set(n for n in dir(builtins) if isinstance(getattr(builtins, n), type) and issubclass(getattr(builtins, n), BaseException))
 FUNC = (ast.FunctionDef, ast.AsyncFunctionDef)
+SCOPE_NODES = (ast.FunctionDef, ast.AsyncFunctionDef, ast.Lambda, ast.ClassDef, ast.ListComp, ast.SetComp, ast.DictComp, ast.GeneratorExp)
 
 
 def ckey(v):
@@ -310,6 +311,7 @@ class Report(object):
         self.interface = []        # interface spelling differences
         self.bracket_uses = []
         self.fold_uses = []        # (P value, Q subtree, path)
+        self.scope_pairs = []      # (P scope node key, Q scope node key)
 
     def rule(self, name, n=1):
         self.rules[name] = self.rules.get(name, 0) + n
@@ -423,6 +425,8 @@ class Matcher(object):
                 self.r.rule('folded')
                 return
             # not evaluable as a whole (raises / NaN): the rewrite may still apply to sub-expressions
+        if isinstance(p, SCOPE_NODES) and type(p) is type(q):
+            self.r.scope_pairs.append((S.nkey(p), S.nkey(q)))
         m = getattr(self, 'm_' + type(p).__name__, None)
         if m is not None:
             if m(p, q, path):
@@ -430,7 +434,7 @@ class Matcher(object):
         if type(p) is not type(q):
             # hoisted literal: P constant, Q name
             if isinstance(p, ast.Constant) and isinstance(q, ast.Name) and isinstance(q.ctx, ast.Load):
-                self.r.const_alias_uses.append((p.value, (id(q), 'id'), path))
+                self.r.const_alias_uses.append((p.value, (S.nkey(q), 'id'), path))
                 self.r.rule('hoisted-literal-use')
                 return
             self.r.diff(path, 'node-class', p, q)
@@ -463,7 +467,7 @@ class Matcher(object):
             return False
         if type(p.ctx) is not type(q.ctx):
             self.r.diff(path, 'ctx', p, q)
-        self.ident(p, (id(p), 'id'), q, (id(q), 'id'), 'name')
+        self.ident(p, (S.nkey(p), 'id'), q, (S.nkey(q), 'id'), 'name')
         return True
 
     def m_Constant(self, p, q, path):
@@ -494,7 +498,7 @@ class Matcher(object):
     def _funcdef(self, p, q, path):
         if type(p) is not type(q):
             return False
-        self.ident(p, (id(p), 'name'), q, (id(q), 'name'), 'def')
+        self.ident(p, (S.nkey(p), 'name'), q, (S.nkey(q), 'name'), 'def')
         self.node(p.decorator_list, q.decorator_list, path + '.decorator_list')
         self.arguments(p.args, q.args, path + '.args', p)
         if p.returns is not None and q.returns is None and self.o.get('remove_return_annotations'):
@@ -540,7 +544,7 @@ class Matcher(object):
         self.node(p.kw_defaults, q.kw_defaults, path + '.kw_defaults')
 
     def arg(self, p, q, path):
-        self.ident(p, (id(p), 'arg'), q, (id(q), 'arg'), 'param')
+        self.ident(p, (S.nkey(p), 'arg'), q, (S.nkey(q), 'arg'), 'param')
         if p.annotation is not None and q.annotation is None and self.o.get('remove_argument_annotations'):
             self.r.rule('argument-annotation-removed')
         else:
@@ -564,7 +568,7 @@ class Matcher(object):
     def m_ClassDef(self, p, q, path):
         if not isinstance(q, ast.ClassDef):
             return False
-        self.ident(p, (id(p), 'name'), q, (id(q), 'name'), 'classdef')
+        self.ident(p, (S.nkey(p), 'name'), q, (S.nkey(q), 'name'), 'classdef')
         self.node(p.decorator_list, q.decorator_list, path + '.decorator_list')
         self.node(p.bases, q.bases, path + '.bases')
         self.node(p.keywords, q.keywords, path + '.keywords')
@@ -610,7 +614,7 @@ class Matcher(object):
             a, b = getattr(p, f), getattr(q, f)
             if isinstance(a, ast.Call) and not a.args and not a.keywords and isinstance(a.func, ast.Name) and not isinstance(b, ast.Call) and b is not None:
                 # brackets removed: decided in step 3 (needs name resolution on P)
-                self.r.bracket_uses.append(((id(a.func), 'id'), a.func.id, path + '.' + f))
+                self.r.bracket_uses.append(((S.nkey(a.func), 'id'), a.func.id, path + '.' + f))
                 self.node(a.func, b, path + '.' + f)
             else:
                 self.node(a, b, path + '.' + f)
@@ -643,7 +647,7 @@ class Matcher(object):
         if dotted_binds_top and '.' in a.name and a.asname is None and b.asname is not None:
             self.r.diff(path, 'dotted-import-renamed', a, b)      # `import a.b as c` binds a.b, not a
             return
-        self.ident(a, (id(a), 'bound'), b, (id(b), 'bound'), 'import')
+        self.ident(a, (S.nkey(a), 'bound'), b, (S.nkey(b), 'bound'), 'import')
 
     def m_ExceptHandler(self, p, q, path):
         if not isinstance(q, ast.ExceptHandler):
@@ -652,7 +656,7 @@ class Matcher(object):
         if (p.name is None) != (q.name is None):
             self.r.diff(path + '.name', 'value', p.name, q.name)
         elif p.name is not None:
-            self.ident(p, (id(p), 'name'), q, (id(q), 'name'), 'except')
+            self.ident(p, (S.nkey(p), 'name'), q, (S.nkey(q), 'name'), 'except')
         self.node(p.body, q.body, path + '.body')
         return True
 
@@ -660,7 +664,7 @@ class Matcher(object):
         if type(p) is not type(q) or len(p.names) != len(q.names):
             return False
         for i in range(len(p.names)):
-            self.ident(p, (id(p), 'names', i), q, (id(q), 'names', i), 'declaration')
+            self.ident(p, (S.nkey(p), 'names', i), q, (S.nkey(q), 'names', i), 'declaration')
         return True
 
     m_Global = _names_stmt
@@ -673,7 +677,7 @@ class Matcher(object):
         if (p.name is None) != (q.name is None):
             self.r.diff(path + '.name', 'value', p.name, q.name)
         elif p.name is not None:
-            self.ident(p, (id(p), 'name'), q, (id(q), 'name'), 'match')
+            self.ident(p, (S.nkey(p), 'name'), q, (S.nkey(q), 'name'), 'match')
         return True
 
     def m_MatchStar(self, p, q, path):
@@ -682,7 +686,7 @@ class Matcher(object):
         if (p.name is None) != (q.name is None):
             self.r.diff(path + '.name', 'value', p.name, q.name)
         elif p.name is not None:
-            self.ident(p, (id(p), 'name'), q, (id(q), 'name'), 'match')
+            self.ident(p, (S.nkey(p), 'name'), q, (S.nkey(q), 'name'), 'match')
         return True
 
     def m_MatchMapping(self, p, q, path):
@@ -693,7 +697,7 @@ class Matcher(object):
         if (p.rest is None) != (q.rest is None):
             self.r.diff(path + '.rest', 'value', p.rest, q.rest)
         elif p.rest is not None:
-            self.ident(p, (id(p), 'rest'), q, (id(q), 'rest'), 'match')
+            self.ident(p, (S.nkey(p), 'rest'), q, (S.nkey(q), 'rest'), 'match')
         return True
 
     def m_MatchClass(self, p, q, path):
@@ -794,8 +798,10 @@ def compare(psrc, qsrc, opts, ptree=None, qtree=None):
     # fresh parses are cheaper than deep copies; the caller's trees stay untouched
     pn = norm.run(ast.parse(psrc), copy_tree=False)
     qn = norm.run(ast.parse(qsrc), copy_tree=False)
-    pm_ = S.resolve(pn)
-    qm_ = S.resolve(qn)
+    # scope models come from pristine parses (true semantics, including bindings inside statements the normal form drops);
+    # nodes are identified by position, which the normalised parses share
+    pm_ = S.resolve(ptree)
+    qm_ = S.resolve(qtree)
     m = Matcher(opts, None)
     m.node(pn, qn, 'module')
     rep = m.r
@@ -816,21 +822,21 @@ def compare(psrc, qsrc, opts, ptree=None, qtree=None):
     const_alias = {}    # (scope index, name) -> value node
     name_alias = {}     # (scope index, name) -> rhs Name node
     alias_stmt_targets = set()
-    qscope_of_node = {id(s.node): s for s in qm_.scopes}
+    qscope_of_node = {S.nkey(s.node): s for s in qm_.scopes}
     for scope_node, stmts, path in rep.alias_blocks:
-        sc = qscope_of_node.get(id(scope_node))
+        sc = qscope_of_node.get(S.nkey(scope_node))
         if sc is None or sc.kind not in ('module', 'function'):
             res.problems.append({'kind': 'alias-in-wrong-scope', 'detail': 'alias block in %s' % path})
             continue
         for st in stmts:
             t = st.targets[0]
-            to = qm_.occ.get((id(t), 'id'))
+            to = qm_.occ.get((S.nkey(t), 'id'))
             b = to.binding if to else None
             if not b or b[0] != 'b':
                 res.problems.append({'kind': 'alias-unresolved', 'detail': t.id})
                 continue
             key = (b[1], b[2])
-            alias_stmt_targets.add(id(t))
+            alias_stmt_targets.add(S.nkey(t))
             if isinstance(st.value, ast.Constant):
                 const_alias[key] = st.value
                 res.aliases.append({'name': t.id, 'scope': sc.kind, 'scope_index': b[1], 'value': ckey(st.value.value), 'kind': 'const'})
@@ -853,7 +859,7 @@ def compare(psrc, qsrc, opts, ptree=None, qtree=None):
     name_alias_target = {}
     for key, rhs in name_alias.items():
         occs = q_by_binding.get(key, [])
-        ro = qm_.occ.get((id(rhs), 'id'))
+        ro = qm_.occ.get((S.nkey(rhs), 'id'))
         rb = ro.binding if ro else None
         sc = qm_.scopes[key[0]]
         if rb and rb[0] == 'free':
@@ -896,7 +902,7 @@ def compare(psrc, qsrc, opts, ptree=None, qtree=None):
         okq = True
         for n in ast.walk(qnode):
             if isinstance(n, ast.Name):
-                qo = qm_.occ.get((id(n), 'id'))
+                qo = qm_.occ.get((S.nkey(n), 'id'))
                 k = (qo.binding[1], qo.binding[2]) if (qo is not None and qo.binding and qo.binding[0] == 'b') else None
                 if k in const_alias:
                     env[n.id] = const_alias[k].value
@@ -905,6 +911,29 @@ def compare(psrc, qsrc, opts, ptree=None, qtree=None):
         vq = eval_literal(qnode, env) if okq else None
         if vq is None or ckey(vq[0]) != ckey(vp):
             res.diffs.append({'path': path, 'kind': 'folded-value-differs', 'p': repr(vp)[:80], 'q': short(qnode)})
+    # ---- scope correspondence from the lock-step walk
+    pscope_idx = {S.nkey(sc.node): sc.index for sc in pm_.scopes}
+    qscope_idx = {S.nkey(sc.node): sc.index for sc in qm_.scopes}
+    scope_map = {0: 0}
+    for pk_, qk_ in rep.scope_pairs:
+        if pk_ in pscope_idx and qk_ in qscope_idx:
+            scope_map[pscope_idx[pk_]] = qscope_idx[qk_]
+    # bindings whose every binding occurrence sits in a statement the enabled options removed (they no longer exist in the output)
+    paired_p = set(pk for pk, _, _ in rep.pairs)
+    paired_q = set(qk for _, qk, _ in rep.pairs)
+    p_binders = {}
+    for o in pm_.occ.values():
+        if o.binding and o.binding[0] == 'b' and o.role in S.BIND_ROLES:
+            p_binders.setdefault((o.binding[1], o.binding[2]), []).append(o)
+    q_binders = {}
+    for o in qm_.occ.values():
+        if o.binding and o.binding[0] == 'b' and o.role in S.BIND_ROLES:
+            q_binders.setdefault((o.binding[1], o.binding[2]), []).append(o)
+
+    def p_binding_dropped(b):
+        bs = p_binders.get((b[1], b[2]), [])
+        return bool(bs) and all(o.key not in paired_p for o in bs)
+    res.paired_p, res.paired_q, res.p_binders, res.q_binders, res.scope_map = paired_p, paired_q, p_binders, q_binders, scope_map
     # ---- binding relation over identifier pairs
     fwd = {}
     bwd = {}
@@ -918,7 +947,7 @@ def compare(psrc, qsrc, opts, ptree=None, qtree=None):
             res.problems.append({'kind': 'occurrence-model-mismatch', 'detail': '%r vs %r' % (pkey[1:], qkey[1:])})
             continue
         pb, qb = po.binding, qo.binding
-        if qb[0] == 'b' and (qb[1], qb[2]) in const_alias and not (id(qo.node) in alias_stmt_targets):
+        if qb[0] == 'b' and (qb[1], qb[2]) in const_alias and not (S.nkey(qo.node) in alias_stmt_targets):
             res.problems.append({'kind': 'name-replaced-by-constant-alias', 'detail': '%s -> %s' % (po.raw, qo.raw)})
             continue
         if qb[0] == 'b' and (qb[1], qb[2]) in name_alias_target:
@@ -932,11 +961,14 @@ def compare(psrc, qsrc, opts, ptree=None, qtree=None):
                 res.problems.append({'kind': 'free-name-captured-or-changed',
                                      'detail': '%s refers to no binding in the input (builtin / outside name) but %s in the output resolves to %r' % (po.raw, qo.raw, qb)})
             continue
+        if qb[0] == 'free' and qo.raw == po.raw and p_binding_dropped(pb):
+            continue        # its only bindings were in statements the options removed; the name keeps its spelling
         if qb[0] == 'free':
             res.problems.append({'kind': 'bound-name-became-free', 'detail': '%s (binding %r) became %s which resolves to no binding' % (po.raw, pb, qo.raw)})
             continue
-        if pb[1] != qb[1]:
-            res.problems.append({'kind': 'binding-scope-differs', 'detail': '%s binds in scope %d, %s in scope %d' % (po.raw, pb[1], qo.raw, qb[1])})
+        if scope_map.get(pb[1], -1) != qb[1]:
+            res.problems.append({'kind': 'binding-scope-differs', 'detail': '%s binds in scope %d (%s), %s in scope %d (%s)' % (
+                po.raw, pb[1], pm_.scopes[pb[1]].name, qo.raw, qb[1], qm_.scopes[qb[1]].name)})
             continue
         pk, qk = (pb[1], pb[2]), (qb[1], qb[2])
         if fwd.setdefault(pk, qk) != qk:
